@@ -270,7 +270,35 @@ pub fn queries(sink: &mut Sink, rng: &mut Rng, thorough: bool, work: &Path) {
       };
       let c = (anchor / unit + rng.below(3)).saturating_sub(1);
       let len = 1 + rng.below(2);
-      let region = vec![c * unit..(c + len) * unit];
+      let mut region = vec![c * unit..(c + len) * unit];
+      // multi-range regions (1 out of 2): further cells anchored in a GAP between two stored ranges, exactly on
+      // the start / end of a stored range or straddling it, so that the scan over (region range, stored range)
+      // pairs meets "region range before the stored range", "touching" and "overlapping" in sequence
+      if rng.chance(1, 2) {
+        let mut cells: Vec<u64> = vec![c, c + len - 1];
+        for _ in 0..(1 + rng.below(3)) {
+          let r1 = rng.pick(&e.ranges).clone();
+          let a = match rng.below(6) {
+            0 => r1.start / unit,
+            1 => (r1.start / unit).saturating_sub(1),
+            2 => r1.end / unit,
+            3 => (r1.end - 1) / unit,
+            4 => if e.ranges.len() > 1 { (e.ranges[0].end + (e.ranges[1].start - e.ranges[0].end) / 2) / unit } else { r1.end / unit + 2 },
+            _ => r1.start / unit + rng.below(3),
+          };
+          cells.push(a);
+        }
+        cells.sort_unstable();
+        cells.dedup();
+        region = Vec::new();
+        for x in cells {
+          match region.last_mut() {
+            Some(l) if l.end == x * unit => l.end = (x + 1) * unit,
+            _ => region.push(x * unit..(x + 1) * unit),
+          }
+        }
+        sink.count("query:multi-range-region");
+      }
       let reg_entry = Entry { id: 0, status: 3, depth: rd, ranges: region.clone() };
       let rp = dir.join("region.txt");
       fs::write(&rp, reg_entry.ascii()).unwrap();
@@ -309,7 +337,7 @@ pub fn crash_points(sink: &mut Sink, rng: &mut Rng, thorough: bool, work: &Path)
   let append_points = ["append.before_data_write", "append.after_data_write", "append.after_index_store", "append.after_meta_store", "append.after_data_flush", "append.after_msync"];
   let chg_points = ["chgstatus.after_meta_store"];
   let purge_points = ["purge.before_tmp_flush", "purge.after_tmp_flush", "purge.after_rename"];
-  let reps = if thorough { 12 } else { 2 };
+  let reps = if thorough { 30 } else { 2 };
   let mut case = 0;
   for rep in 0..reps {
     for (kind, points) in [("append", &append_points[..]), ("chgstatus", &chg_points[..]), ("purge", &purge_points[..])] {
